@@ -17,6 +17,9 @@ import (
 	"crypto"
 	"crypto/ecdsa"
 	"crypto/ed25519"
+	"crypto/hmac"
+	"crypto/sha256"
+	"encoding/asn1"
 	"crypto/elliptic"
 	"crypto/rand"
 	"crypto/rsa"
@@ -33,6 +36,9 @@ import (
 	"math/big"
 	"net"
 	"net/http"
+	"net/http/httptest"
+	"os"
+	pathpkg "path"
 	"sort"
 	"strconv"
 	"strings"
@@ -376,6 +382,11 @@ func (l *evlog) add(kind string, v string) {
 	l.ev = append(l.ev, kind+":"+hx.Hex([]byte(v)))
 	l.mu.Unlock()
 }
+func (l *evlog) addRaw(e string) {
+	l.mu.Lock()
+	l.ev = append(l.ev, e)
+	l.mu.Unlock()
+}
 func (l *evlog) take() []string {
 	l.mu.Lock()
 	defer l.mu.Unlock()
@@ -425,6 +436,7 @@ func (c *memCache) Delete(ctx context.Context, key string) error {
 type fakeCA struct {
 	log    *evlog
 	refuse bool
+	terms  bool // the directory announces terms of service
 	d      desc
 	mu     sync.Mutex
 	nonce  int
@@ -434,6 +446,48 @@ type fakeCA struct {
 }
 
 const caBase = "https://ca.invalid"
+
+var (
+	oidExtra = asn1.ObjectIdentifier{1, 3, 6, 1, 4, 1, 55555, 1}
+	eabKey   = []byte("0123456789abcdef0123456789abcdef")
+)
+
+// accountEvent renders what the newAccount request says: terms agreed, contact e-mail, and whether a
+// well-formed external account binding (HS256 by eabKey over the JWK of the outer header, url = newAccount) is attached.
+func accountEvent(payload, protected []byte) string {
+	var a struct {
+		TermsOfServiceAgreed   bool
+		Contact                []string
+		ExternalAccountBinding *struct{ Protected, Payload, Signature string }
+	}
+	json.Unmarshal(payload, &a)
+	var outer struct{ JWK json.RawMessage }
+	json.Unmarshal(protected, &outer)
+	tos, email, eab := 0, "", "0"
+	if a.TermsOfServiceAgreed {
+		tos = 1
+	}
+	if len(a.Contact) > 0 {
+		email = a.Contact[0] // the whole contact URL
+	}
+	if b := a.ExternalAccountBinding; b != nil {
+		eab = "bad"
+		mac := hmac.New(sha256.New, eabKey)
+		mac.Write([]byte(b.Protected + "." + b.Payload))
+		sig, _ := base64.RawURLEncoding.DecodeString(b.Signature)
+		inner, _ := base64.RawURLEncoding.DecodeString(b.Payload)
+		ph, _ := base64.RawURLEncoding.DecodeString(b.Protected)
+		var head struct{ Alg, KID, URL string }
+		json.Unmarshal(ph, &head)
+		var j1, j2 interface{}
+		json.Unmarshal(inner, &j1)
+		json.Unmarshal(outer.JWK, &j2)
+		if hmac.Equal(sig, mac.Sum(nil)) && head.Alg == "HS256" && head.KID == "eab-kid" && head.URL == caBase+"/acct" && j1 != nil && fmt.Sprint(j1) == fmt.Sprint(j2) {
+			eab = "1"
+		}
+	}
+	return fmt.Sprintf("a:%d/%s/%s", tos, hx.Hex([]byte(email)), eab)
+}
 
 func (ca *fakeCA) RoundTrip(req *http.Request) (*http.Response, error) {
 	ca.mu.Lock()
@@ -449,22 +503,28 @@ func (ca *fakeCA) RoundTrip(req *http.Request) (*http.Response, error) {
 	problem := func(code int, typ string) (*http.Response, error) {
 		return reply(code, "application/problem+json", fmt.Sprintf(`{"type":"urn:ietf:params:acme:error:%s","detail":"scripted","status":%d}`, typ, code))
 	}
-	var payload []byte
+	var payload, protected []byte
 	if req.Method == "POST" {
-		var jws struct{ Payload string }
+		var jws struct{ Protected, Payload string }
 		b, _ := io.ReadAll(req.Body)
 		if json.Unmarshal(b, &jws) != nil {
 			return problem(400, "malformed")
 		}
 		payload, _ = base64.RawURLEncoding.DecodeString(jws.Payload)
+		protected, _ = base64.RawURLEncoding.DecodeString(jws.Protected)
 	}
 	p := req.URL.Path
 	switch {
 	case p == "/dir":
-		return reply(200, "application/json", fmt.Sprintf(`{"newNonce":"%s/nonce","newAccount":"%s/acct","newOrder":"%s/order"}`, caBase, caBase, caBase))
+		meta := ""
+		if ca.terms {
+			meta = fmt.Sprintf(`,"meta":{"termsOfService":"%s/tos"}`, caBase)
+		}
+		return reply(200, "application/json", fmt.Sprintf(`{"newNonce":"%s/nonce","newAccount":"%s/acct","newOrder":"%s/order"%s}`, caBase, caBase, caBase, meta))
 	case p == "/nonce":
 		return reply(200, "text/plain", "")
 	case p == "/acct":
+		ca.log.addRaw(accountEvent(payload, protected))
 		h.Set("Location", caBase+"/acct/1")
 		return reply(201, "application/json", `{"status":"valid"}`)
 	case p == "/order":
@@ -495,6 +555,13 @@ func (ca *fakeCA) RoundTrip(req *http.Request) (*http.Response, error) {
 		if err != nil || len(csr.DNSNames) == 0 {
 			return problem(400, "badCSR")
 		}
+		ext := 0
+		for _, e := range csr.Extensions {
+			if e.Id.Equal(oidExtra) {
+				ext = 1
+			}
+		}
+		ca.log.addRaw(fmt.Sprintf("c:%s/%d", hx.Hex([]byte(csr.DNSNames[0])), ext))
 		der, _, err := makeCert(ca.d, csr.DNSNames[0], csr.PublicKey)
 		if err != nil {
 			return problem(500, "serverInternal")
@@ -667,6 +734,31 @@ func buildWorld(o hx.Op) (*world, bool) {
 		}
 		ca.d = d
 	}
+	if a := o.Str("acct"); a != "" {
+		f := strings.Split(a, "/")
+		if len(f) != 5 {
+			return nil, false
+		}
+		ca.terms = f[0] == "1"
+		switch f[1] {
+		case "nil":
+			m.Prompt = nil
+		case "1":
+			m.Prompt = autocert.AcceptTOS
+		default:
+			m.Prompt = func(string) bool { return false }
+		}
+		if e, _ := unhexStr(f[2]); e != "" {
+			m.Email = e
+		}
+		if f[3] == "1" {
+			m.ExternalAccountBinding = &acme.ExternalAccountBinding{KID: "eab-kid", Key: eabKey}
+		}
+		if f[4] == "1" {
+			m.ExtraExtensions = []pkix.Extension{{Id: oidExtra, Value: []byte{0x05, 0x00}}}
+		}
+	}
+	m.ForceRSA = o.Str("frsa") == "1" // documented as ignored
 	m.Client = &acme.Client{Key: getKeys().acct, DirectoryURL: caBase + "/dir", HTTPClient: &http.Client{Transport: ca},
 		RetryBackoff: func(int, *http.Request, *http.Response) time.Duration { return 0 }}
 	autocert.VerifSetNow(m, func() time.Time { return time.Unix(w.now.Load(), 0) })
@@ -837,8 +929,18 @@ func execGc(o hx.Op) string {
 	var outs []string
 	for _, c := range calls {
 		w.now.Store(c.now)
-		r := hx.Catch(func() string { return w.classify(w.m.GetCertificate(c.h)) })
-		outs = append(outs, fmt.Sprintf("%s ev=%s", r, hx.JoinStrs(w.log.take())))
+		get, np := w.m.GetCertificate, ""
+		if o.Str("via") == "tls" { // the same decision reached through Manager.TLSConfig
+			cfg := w.m.TLSConfig()
+			get = cfg.GetCertificate
+			var ps []string
+			for _, p := range cfg.NextProtos {
+				ps = append(ps, hx.Hex([]byte(p)))
+			}
+			np = " np=" + hx.JoinStrs(ps)
+		}
+		r := hx.Catch(func() string { return w.classify(get(c.h)) })
+		outs = append(outs, fmt.Sprintf("%s ev=%s%s", r, hx.JoinStrs(w.log.take()), np))
 	}
 	return strings.Join(outs, "|")
 }
@@ -1066,6 +1168,28 @@ func genWorldAndCalls(g *hx.Gen, mode string) {
 		fmt.Fprintf(&sb, " cache=%s", hx.JoinStrs(ents))
 	}
 	sb.WriteString(" state=-")
+	// account registration and CSR: Prompt / terms of service, Email, ExternalAccountBinding, ExtraExtensions, ForceRSA
+	if r.Chance(1, 2) {
+		terms, prompt, email, eab, ext := r.Intn(2), hx.Pick(r, []string{"1", "1", "0", "nil"}), "-", r.Intn(2), r.Intn(2)
+		if r.Bool() {
+			email = hx.Hex([]byte(hx.Pick(r, []string{"admin@example.org", "a+b@example.net"})))
+		}
+		fmt.Fprintf(&sb, " acct=%d/%s/%s/%d/%d", terms, prompt, email, eab, ext)
+		g.Stat("acct.fields-set")
+		if terms == 1 && prompt == "nil" {
+			g.Stat("acct.terms-without-prompt")
+		}
+		if eab == 1 {
+			g.Stat("acct.eab")
+		}
+		if ext == 1 {
+			g.Stat("acct.extra-extensions")
+		}
+	}
+	if r.Chance(1, 4) {
+		sb.WriteString(" frsa=1")
+		g.Stat("manager.ForceRSA")
+	}
 	// CA
 	if r.Chance(1, 8) {
 		sb.WriteString(" ca=refuse")
@@ -1099,6 +1223,10 @@ func genWorldAndCalls(g *hx.Gen, mode string) {
 		}
 		sb.WriteString(genHello(r, g, "", name, kind))
 		fmt.Fprintf(&sb, " now=%d", now)
+		if r.Chance(1, 3) {
+			sb.WriteString(" via=tls")
+			g.Stat("manager.TLSConfig")
+		}
 	case "hist":
 		// two or three hellos for the same (or a sibling) name; the clock moves between calls
 		nh := r.Range(1, 3)
@@ -1162,6 +1290,12 @@ func gen(g *hx.Gen) {
 	genNext(g, g.Count(10000, 1000000))
 	ngc := g.Count(320, 12000)
 	for i := 0; i < ngc; i++ {
+		if i%4 == 1 {
+			for k := 0; k < 4; k++ {
+				genHttph(g)
+			}
+			genDirc(g)
+		}
 		switch i % 4 {
 		case 0, 1:
 			genWorldAndCalls(g, "gc")
@@ -1173,6 +1307,165 @@ func gen(g *hx.Gen) {
 	}
 }
 
+// ------------------------------------------------------------------ HTTPHandler, DirCache
+
+func stripPortOracle(hostport string) string {
+	host, _, err := net.SplitHostPort(hostport)
+	if err != nil {
+		return hostport
+	}
+	return net.JoinHostPort(host, "443")
+}
+
+func execHttph(o hx.Op) string {
+	log := &evlog{}
+	m := &autocert.Manager{}
+	if raw := o.Str("wlraw"); raw != "nil" {
+		hosts, ok := hexList(raw)
+		if !ok {
+			return "bad-op"
+		}
+		inner := autocert.HostWhitelist(hosts...)
+		m.HostPolicy = func(ctx context.Context, host string) error {
+			log.add("p", host)
+			return inner(ctx, host)
+		}
+	}
+	ckey, _ := unhexStr(o.Str("ckey"))
+	switch tc := o.Str("tcache"); tc {
+	case "nil":
+	case "miss":
+		m.Cache = &memCache{log: log, m: map[string]centry{}}
+	default:
+		m.Cache = &memCache{log: log, m: map[string]centry{ckey: {data: hx.UnHex(tc)}}}
+	}
+	if ht := o.Str("htok"); ht != "-" {
+		for _, e := range strings.Split(ht, ",") {
+			k, v, _ := strings.Cut(e, ":")
+			ks, _ := unhexStr(k)
+			autocert.VerifPutHTTPToken(m, ks, hx.UnHex(v))
+		}
+	}
+	var fb http.Handler
+	if o.Str("fb") == "1" {
+		fb = http.HandlerFunc(func(w http.ResponseWriter, r *http.Request) { w.WriteHeader(299) })
+	}
+	h := m.HTTPHandler(fb)
+	method, _ := unhexStr(o.Str("method"))
+	host, _ := unhexStr(o.Str("host"))
+	uri, _ := unhexStr(o.Str("uri"))
+	req, err := http.NewRequest(method, "http://placeholder"+uri, nil)
+	if err != nil {
+		return "bad-op"
+	}
+	req.Host = host
+	rec := httptest.NewRecorder()
+	h.ServeHTTP(rec, req)
+	res := ""
+	switch rec.Code {
+	case 299:
+		res = "fallback"
+	case 302:
+		res = "302 loc=" + hx.Hex([]byte(rec.Header().Get("Location")))
+	case 200:
+		res = "200 body=" + hx.Hex(rec.Body.Bytes())
+	default:
+		res = fmt.Sprintf("%d body=-", rec.Code)
+	}
+	return fmt.Sprintf("%s ev=%s", res, hx.JoinStrs(log.take()))
+}
+
+var dirSeq atomic.Int64
+
+func execDirc(o hx.Op) string {
+	dir := fmt.Sprintf("/verif/.build/tmp/c51-dircache-%d-%d", os.Getpid(), dirSeq.Add(1))
+	defer os.RemoveAll(dir)
+	dc := autocert.DirCache(dir)
+	ctx := context.Background()
+	var gets []string
+	for _, op := range o.List("ops") {
+		f := strings.Split(op, ":")
+		k, _ := unhexStr(f[1])
+		switch f[0] {
+		case "p":
+			if err := dc.Put(ctx, k, hx.UnHex(f[2])); err != nil {
+				return "put-error"
+			}
+		case "g":
+			b, err := dc.Get(ctx, k)
+			switch {
+			case err == autocert.ErrCacheMiss:
+				gets = append(gets, "miss")
+			case err != nil:
+				gets = append(gets, "error")
+			default:
+				gets = append(gets, hx.Hex(b))
+			}
+		case "d":
+			if err := dc.Delete(ctx, k); err != nil {
+				return "delete-error"
+			}
+		}
+	}
+	return "get=" + hx.JoinStrs(gets)
+}
+
+func genHttph(g *hx.Gen) {
+	r := g.R
+	hosts := []string{"example.com", "example.com:80", "EXAMPLE.com", "[::1]:8080", "www.example.org", "192.0.2.1:80", "bad host"}
+	paths := []string{"/.well-known/acme-challenge/tok1", "/.well-known/acme-challenge/tok2", "/.well-known/acme-challenge/", "/.well-known/acme-challenge/a/b",
+		"/.well-known/acme-challengeX", "/index.html", "/", "/.well-known/acme-challenge"}
+	host, path := hx.Pick(r, hosts), hx.Pick(r, paths)
+	uri := path
+	if r.Chance(1, 3) {
+		uri += "?q=1&r=%20"
+	}
+	wl := "nil"
+	wla := "nil"
+	if !r.Chance(1, 5) {
+		var ws, wa []string
+		for _, h := range hosts[:5] {
+			if r.Chance(1, 2) {
+				ws = append(ws, hx.Hex([]byte(h)))
+				if a := asciiOf(h); a != "err" {
+					wa = append(wa, a)
+				}
+			}
+		}
+		wl, wla = hx.JoinStrs(ws), hx.JoinStrs(wa)
+	}
+	var toks []string
+	for _, p := range paths[:4] {
+		if r.Chance(1, 3) {
+			toks = append(toks, hx.Hex([]byte(p))+":"+hx.Hex([]byte("keyauth-"+p[len(p)-2:])))
+		}
+	}
+	tcache := hx.Pick(r, []string{"nil", "miss", hx.Hex([]byte("from-cache"))})
+	g.Stat("op.httph")
+	g.Emit("httph wlraw=%s wl=%s htok=%s tcache=%s fb=%d method=%s host=%s path=%s uri=%s hnp=%s ckey=%s", wl, wla, hx.JoinStrs(toks), tcache, r.Intn(2),
+		hx.Hex([]byte(hx.Pick(r, []string{"GET", "GET", "HEAD", "POST", "PUT"}))), hx.Hex([]byte(host)), hx.Hex([]byte(path)), hx.Hex([]byte(uri)),
+		hx.Hex([]byte(stripPortOracle(host))), hx.Hex([]byte(pathpkg.Base(path)+"+http-01")))
+}
+
+func genDirc(g *hx.Gen) {
+	r := g.R
+	keys := []string{"example.org", "example.org+rsa", "example.org+token", "acme_account+key", "tok1+http-01", "a.b-c_d"}
+	var ops []string
+	for k := r.Range(1, 10); k > 0; k-- {
+		key := hx.Hex([]byte(hx.Pick(r, keys)))
+		switch r.Intn(5) {
+		case 0, 1:
+			ops = append(ops, "p:"+key+":"+hx.Hex(r.Bytes(r.Range(0, 40))))
+		case 2, 3:
+			ops = append(ops, "g:"+key)
+		default:
+			ops = append(ops, "d:"+key)
+		}
+	}
+	g.Stat("op.dirc")
+	g.Emit("dirc ops=%s", strings.Join(ops, ","))
+}
+
 func exec(line string) string {
 	o := hx.Parse(line)
 	switch o.Cmd {
@@ -1180,6 +1473,10 @@ func exec(line string) string {
 		return execNext(o)
 	case "gc", "hist", "conc":
 		return execGc(o)
+	case "httph":
+		return execHttph(o)
+	case "dirc":
+		return execDirc(o)
 	}
 	return "bad-op"
 }
